@@ -278,6 +278,11 @@ M(['C07', 'C14'], 'sharded-update-exponents-recomputed', DS, "        new_stacke
 M('C13', 'sharded-update-dummy-rows-inverted', DS, "    if not new_padded_statistics:\n      to_pad = num_devices_for_pjit", "    if new_padded_statistics:\n      to_pad = num_devices_for_pjit")
 TW('C13', 'twin-sharded-update-dummy-rows-len', DS, "    if not new_padded_statistics:\n      to_pad = num_devices_for_pjit", "    if len(new_padded_statistics) == 0:\n      to_pad = num_devices_for_pjit")
 
+M(['C07', 'C14'], 'sk-eigvecs-one-more-column', SK, "  eigvecs = u[:, :k]\n", "  eigvecs = u[:, :k + 1]\n")
+M(['C07', 'C14'], 'sk-ekfac-factor-truncated', SK, "    svd_result_u = u\n", "    svd_result_u = u[:, :k]\n")
+M(['C07', 'C14'], 'sk-eigvals-shorter', SK, "  top_eigs = jnp.maximum(s[:k], 0.0)\n", "  top_eigs = jnp.maximum(s[:k - 1], 0.0)\n")
+TW('C07', 'twin-sk-eigvecs-slice-respelled', SK, "  eigvecs = u[:, :k]\n", "  eigvecs = u[:, 0:k]\n")
+
 # ------------------------------------------------------------------ C08
 M(['C08', 'C15'], 'F7-global-eig-cutoff', TS, "  mask = w <= eps * jnp.max(w, axis=-1, keepdims=True)", "  mask = w <= eps * jnp.max(w)")
 M('C08', 'cutoff-over-blocks-axis', TS, "  mask = w <= eps * jnp.max(w, axis=-1, keepdims=True)", "  mask = w <= eps * jnp.max(w, axis=0, keepdims=True)")
